@@ -93,7 +93,7 @@ func (d *StreamingBlockDecoder) DecodeWithOffsets() (*BlockTransactionOffsets, e
 	}
 	_ = blockLen // Used for validation if needed
 
-	if len(blockArray) < 3 {
+	if len(blockArray) < 3 || isByronEpochBoundaryBlock(blockArray) {
 		// Byron EBB or other minimal block format
 		// Return empty slice instead of nil to prevent nil pointer dereference
 		d.offsets.Transactions = []TransactionLocation{}
